@@ -98,7 +98,14 @@ def run(ctx):
     leaves = Extractor(prog, B["parse"], stop_at_loops=True).run()
     loop_leaves = [l for l in leaves if l[1][0] == "loop"]
     report.floor("OPT::parse paths reaching the option loop", len(loop_leaves), 1)
-    names = {v: k for k, v in B["parse"].local_names().items()}
+    # the locals that become OPT.version / OPT.udp_packet_size, found through the OPT aggregate (not by name)
+    names = {}
+    pdefs = mu.defs_of(B["parse"])
+    for _bi, _si, s0 in mu.aggregates(B["parse"], "opt::OPT"):
+        for fname, op in zip(s0["rv"]["fields"], s0["rv"]["ops"]):
+            l0 = mu.origin_local(B["parse"], pdefs, mu.op_local(op))
+            if l0 is not None:
+                names[fname] = l0
     for conds, (_, env) in loop_leaves[:1]:
         for ttl in (0x01020000, 0xAB00CDEF, 0x00FF8000):
             words = {(2, 4): 1232, (4, 8): ttl}
@@ -118,7 +125,7 @@ def run(ctx):
                          "it is the CLASS field at +2..+4, TTL at +4..+8" % (sorted(set(m.reads)), u))
                 report.nontriv("parse prefix")
             else:
-                report.lost_anchor("locals `version` / `udp_packet_size` of OPT::parse")
+                report.lost_anchor("the values stored in OPT.version / OPT.udp_packet_size by OPT::parse")
     # ---- R3: OPT record synthesised iff header.opt is Some, and counted once
     b = B["opt_rr"]
     maps = mu.calls(b, r"^std::option::Option::<T>::map$")
